@@ -55,7 +55,7 @@ func (s *Shard) Restore(r io.Reader, ignoreErrors bool) (int, int, error) {
 			data = data[:sz]
 		}
 
-		_, err = r.Read(data)
+		_, err = io.ReadFull(r, data)
 		if err != nil {
 			return count, failCount, err
 		}
